@@ -188,6 +188,8 @@ class Interp(Exec):
                 return True
         if not exc.exact:
             for n in names:
+                if any(is_exc_subclass(self.reg, self.src, n, x) for x in getattr(exc, "excl", [])):
+                    continue
                 if is_exc_subclass(self.reg, self.src, n, exc.cls):
                     b = self.fresh("exc_is_" + n, z3.BoolSort())
                     if self.branch(b):
@@ -207,6 +209,12 @@ class Interp(Exec):
 
     def st_For(self, s):
         it = self.ev(s.iter)
+        if isinstance(it, VTuple) and len(it.items) == 2 and isinstance(it.items[0], VBuiltin) and it.items[0].name == "enumerate":
+            self.enumerating = True
+            try:
+                return self.loop(s, s.target, it.items[1])
+            finally:
+                self.enumerating = False
         self.loop(s, s.target, it)
 
     def st_Break(self, s):
@@ -325,7 +333,12 @@ class Interp(Exec):
             cond = self.truth(self.ev(s.test))
         if self.branch(cond):
             if lst is not None:
-                self.assign(target, self.from_term(lst.arr[i], lst.ty.e))
+                elem = self.from_term(lst.arr[i], lst.ty.e)
+                if getattr(self, "enumerating", False) and isinstance(target, ast.Tuple):
+                    self.enumerating = False
+                    self.assign(target, VTuple([VInt(i), elem]))
+                else:
+                    self.assign(target, elem)
             try:
                 self.exec_block(s.body)
             except BreakSig:
@@ -383,11 +396,19 @@ class Interp(Exec):
             else:
                 self.st.fields[(oid, f)] = self.havoc_value(v, "h_%s_%s" % (cls, f))
         for a in list(self.st.objheap):
-            if a in eff["fields"]:
+            if a.split("#")[0] in eff["fields"]:
                 self.st.objheap[a] = self.fresh("h_heap_" + a, self.st.objheap[a].sort())
         for a, (ty, mut) in self.reg.attrs.items():
-            if mut and a in eff["fields"] and a not in self.st.objheap:
-                self.st.objheap[a] = self.fresh("h_heap_" + a, z3.ArraySort(ObjSort, ty.sort()))
+            if mut and a in eff["fields"]:
+                if isinstance(ty, TSet):
+                    comps = {a + "#mem": z3.ArraySort(ty.e.sort(), z3.BoolSort()), a + "#count": z3.IntSort()}
+                elif isinstance(ty, TList):
+                    comps = {a + "#arr": z3.ArraySort(z3.IntSort(), ty.e.sort()), a + "#len": z3.IntSort()}
+                else:
+                    comps = {a: ty.sort()}
+                for cn, srt in comps.items():
+                    if cn not in self.st.objheap:
+                        self.st.objheap[cn] = self.fresh("h_heap_" + cn, z3.ArraySort(ObjSort, srt))
         for g in list(self.st.ghost):
             if g in eff["ghosts"]:
                 self.st.ghost[g] = self.havoc_value(self.st.ghost[g], "h_ghost_" + g)
@@ -461,7 +482,7 @@ class Interp(Exec):
             fty = self.reg.entities[base.cls].get(name)
             if fty is None:
                 raise Unsupported("store to undeclared field %s.%s" % (base.cls, name))
-            if isinstance(fty, (TDict, TOrdSet, TList, TSet)):
+            if isinstance(fty, (TDict, TOrdSet, TList, TSet, TStack)):
                 if not isinstance(v, VCont):
                     raise Unsupported("non-container stored in container field")
                 loc = ("f", base.oid, name)
@@ -492,7 +513,10 @@ class Interp(Exec):
                 return v
             return VOpt(z3.BoolVal(False), v)
         if isinstance(ty, TObj):
-            return VObj(self.box(v), ty.cls)
+            cls = ty.cls[3:] if ty.cls and ty.cls.startswith("nn:") else ty.cls
+            if isinstance(v, VObj) and v.cls and not cls:
+                cls = v.cls
+            return VObj(self.box(v), cls)
         if isinstance(ty, TEnt):
             return v
         if ty is TReal and isinstance(v, VInt):
@@ -614,6 +638,8 @@ class Interp(Exec):
                 if not self.spec_mode:
                     if not self.branch(base.t != PyNone):
                         raise PyRaise(VExc("AttributeError", []))
+                if isinstance(ty, (TSet, TList)):
+                    return VCont(("h", name, base.t))
                 if mutable:
                     return self.from_term(self.heap_arr(name, ty)[base.t], ty)
                 f = z3.Function("attr_" + name, ObjSort, ty.sort())
@@ -621,8 +647,12 @@ class Interp(Exec):
                 if isinstance(r, VObj) and r.cls and r.cls.startswith("nn:"):
                     r.cls = r.cls[3:]
                     self.assume(z3.Implies(base.t != PyNone, r.t != PyNone))
+                if isinstance(r, VObj):
+                    # immutable attribute of an object that existed at entry: its value existed at entry too
+                    a0 = z3.Const("alloc0", z3.ArraySort(ObjSort, z3.BoolSort()))
+                    self.assume(z3.Implies(a0[base.t], z3.Or(r.t == PyNone, a0[r.t])))
                 return r
-            if name in self.reg.obj_methods or (base.cls and "%s.%s" % (base.cls, name) in self.reg.obj_methods):
+            if name in self.reg.obj_methods or name in self.reg.obj_method_hooks or (base.cls and "%s.%s" % (base.cls, name) in self.reg.obj_methods):
                 return VMethod(base, name)
             if base.cls in self.reg.opaque_classes:
                 fi = self.src.find_method(self.reg.opaque_classes[base.cls], base.cls, name)
@@ -632,7 +662,11 @@ class Interp(Exec):
                     return VFunc(fi.fid, base)
             raise Unsupported("attribute %s of opaque object (cls=%s)" % (name, base.cls))
         if isinstance(base, VRec):
-            return self.from_term(base.ty.get(base.t, name), base.ty.fty(name))
+            if name in dict(base.ty.fields):
+                return self.from_term(base.ty.get(base.t, name), base.ty.fty(name))
+            if (base.ty.name, name) in self.reg.record_methods:
+                return VMethod(base, name)
+            raise Unsupported("attribute %s of record %s" % (name, base.ty.name))
         if isinstance(base, VOpt):
             if not self.spec_mode:
                 if not self.branch(z3.Not(base.isnone)):
@@ -667,10 +701,8 @@ class Interp(Exec):
 
     def class_member(self, base, name):
         cname = base.name
-        if cname in self.reg.enums:
-            if name in self.reg.enums[cname]:
-                return self.enum_member(cname, name)
-            raise Unsupported("enum member %s.%s" % (cname, name))
+        if cname in self.reg.enums and name in self.reg.enums[cname]:
+            return self.enum_member(cname, name)
         if base.module:
             r = self.src.resolve_class(base.module, cname.split(".")[0])
             if r:
@@ -761,6 +793,10 @@ class Interp(Exec):
             raise Unsupported("% formatting")
         if isinstance(op, ast.Mult) and isinstance(a, VCont) and isinstance(b, VInt):
             return self.list_repeat(a, b)
+        if isinstance(a, VObj) and isinstance(b, VObj) and not self.spec_mode:
+            # arithmetic on opaque objects (e.g. datetime difference): an uninterpreted function of both operands; may raise TypeError
+            f = z3.Function("py_binop_" + op.__class__.__name__, ObjSort, ObjSort, ObjSort)
+            return VObj(f(a.t, b.t))
         raise Unsupported("binop %s on %r, %r" % (op.__class__.__name__, a, b))
 
     def list_repeat(self, a, n):
@@ -944,6 +980,7 @@ class Interp(Exec):
             c = self.cont(v)
             if isinstance(c, EmptyV): return z3.BoolVal(False)
             if isinstance(c, ListV): return c.n > 0
+            if isinstance(c, StackV): return z3.BoolVal(True) if c.items else c.prefix_some
             return c.count > 0
         if isinstance(v, VTuple): return z3.BoolVal(len(v.items) > 0)
         if isinstance(v, VRec): return z3.BoolVal(True)
@@ -968,7 +1005,14 @@ class Interp(Exec):
         return box
 
     def ev_Set(self, n):
-        raise Unsupported("set literal")
+        box = self.new_box(EmptyV("set"))
+        for e in n.elts:
+            v = self.ev(e)
+            c = self.cont(box)
+            if isinstance(c, EmptyV):
+                self.materialize(box, TSet(self.type_of(v) if not isinstance(v, VObj) else TObj()))
+            self.call_method(box, "add", [v], {}, n)
+        return box
 
     def ev_Subscript(self, n):
         base = self.ev(n.value)
@@ -983,6 +1027,12 @@ class Interp(Exec):
                 return self.dict_get(base, k)
             if isinstance(c, ListV):
                 return self.list_get(base, k)
+            if isinstance(c, StackV) and isinstance(k, VInt) and z3.is_int_value(z3.simplify(k.t)) and z3.simplify(k.t).as_long() == -1:
+                if c.items:
+                    return c.items[-1]
+                if not self.spec_mode and not self.branch(c.prefix_some):
+                    raise PyRaise(VExc("IndexError", []))
+                return c.prefix_top
             if isinstance(c, OrdSetV) and isinstance(k, VInt) and z3.is_int_value(z3.simplify(k.t)) and z3.simplify(k.t).as_long() in (0, -1):
                 return self.os_peek(base, z3.simplify(k.t).as_long() == 0)
             if isinstance(c, EmptyV):
